@@ -29,6 +29,7 @@ type scenario struct {
 	SubA       []string `json:"subA"`
 	SubB       []string `json:"subB"`
 	FinishAt   int      `json:"finishAt"`
+	FinishEnd  bool     `json:"finishAtEnd"` // a HandleRequestFinish filter returns BfeHandlerFinish
 	Conc       int      `json:"conc"`
 }
 
@@ -48,6 +49,7 @@ var (
 	mu      sync.Mutex
 	reqs    = map[string]*reqState{}
 	finish  = map[string]int{} // req id -> finishAt
+	finEnd  = map[string]bool{}
 	events  []map[string]interface{}
 	seen    = map[*backend.BfeBackend]bool{}
 	curCase int
@@ -128,6 +130,15 @@ func main() {
 		}
 		return bfe_module.BfeHandlerGoOn, nil
 	})
+	s.AddFilter(bfe_module.HandleRequestFinish, func(c *e2e.Call) (int, *bfe_http.Response) {
+		id := c.Req.HttpRequest.Header.Get("X-Case-Req")
+		mu.Lock()
+		defer mu.Unlock()
+		if finEnd[id] {
+			return bfe_module.BfeHandlerFinish, nil
+		}
+		return bfe_module.BfeHandlerGoOn, nil
+	})
 	done := 0
 	for _, c := range cases {
 		if err := runScenario(s, pool, c); err != nil {
@@ -201,6 +212,7 @@ func runScenario(s *e2e.Server, pool map[string][]string, c scenario) error {
 		mu.Lock()
 		reqs[id] = &reqState{}
 		finish[id] = c.FinishAt
+		finEnd[id] = c.FinishEnd
 		mu.Unlock()
 		wg.Add(1)
 		go func(id string) {
@@ -255,6 +267,7 @@ func runScenario(s *e2e.Server, pool map[string][]string, c scenario) error {
 		vh.Emit(map[string]interface{}{"ev": "fin", "cid": c.ID, "req": id, "att": att, "status": st.status, "forwards": st.forwards, "panic": false})
 		delete(reqs, id)
 		delete(finish, id)
+		delete(finEnd, id)
 	}
 	conns := []int{}
 	for b := range seen {
